@@ -17,7 +17,9 @@ type Prop struct {
 }
 
 func init() {
-	corr.Register(Prop{Id: "C04", Prefixes: []string{"c04-", "c07-", "node-"}, Profiles: c04Profiles})
+	corr.Register(Prop{Id: "C04", Prefixes: []string{"c04-", "node-"}, Profiles: c04Profiles})
+	// the same node histories judged by the fork-choice oracle of C07 (receive-time bookkeeping of Executer.process)
+	corr.Register(Prop{Id: "C07NODE", Prefixes: []string{"c07-", "node-"}, Profiles: c04Profiles})
 }
 
 func (p Prop) ID() string                 { return p.Id }
